@@ -27,6 +27,9 @@ struct Contract {
     /// attribute text placed before the function
     #[serde(default)]
     attrs: String,
+    /// for functions left external with an assumed spec: the (whitespace-free) body text the spec was written for
+    #[serde(default)]
+    pin_body: String,
     /// proof text inserted before the closing brace of the body (only for bodies without tail expression)
     #[serde(default)]
     exit: String,
@@ -53,6 +56,9 @@ struct Hoist {
     spec: String,
     #[serde(default)]
     by_ref: bool,
+    /// whitespace-free text the hoisted suffix must have (the assumed spec was written for exactly this text)
+    #[serde(default)]
+    pin: String,
 }
 
 #[derive(Deserialize, Default)]
@@ -114,6 +120,18 @@ struct Plan {
     /// contract (R16): Verus forbids `requires` on trait-impl methods. The original stays (external_body).
     #[serde(default)]
     inherent_copy: Vec<String>,
+    /// phf_set! statics replaced by a generated word-set stub (R9): item key -> language prefix
+    #[serde(default)]
+    phf_stub: HashMap<String, String>,
+    /// bitflags! invocations replaced by a generated plain struct with verified methods (R9)
+    #[serde(default)]
+    bitflags_stub: bool,
+    /// literals whose word constant `w_<name>` + bridging lemma `vx_lit_<name>` are defined by the overlay
+    #[serde(default)]
+    known_lits: Vec<String>,
+    /// rewrite `.parse()` into vx_parse_f64 (R20)
+    #[serde(default)]
+    parse_f64: bool,
     /// generate entry facts for the string literals of every verified function (R18)
     #[serde(default)]
     strlit_facts: bool,
@@ -135,6 +153,9 @@ struct ExprHoist {
     spec: String,
     /// call arguments (the free variables of the expression, same names as the helper's parameters)
     args: String,
+    /// when set, the helper is emitted as a method `impl <method_of> { fn name(&self, ..) }` and called as self.name(args)
+    #[serde(default)]
+    method_of: String,
 }
 
 #[derive(Deserialize, Clone)]
@@ -328,12 +349,19 @@ impl<'p> Ctx<'p> {
         if let Some(b) = block {
             let (bs, _be) = br(b.span());
             if let Some(c) = &contract {
+                if !c.pin_body.is_empty() {
+                    let (s0, e0) = br(b.span());
+                    let body = squash(self.text(s0 + 1, e0 - 1));
+                    if body != squash(&c.pin_body) {
+                        self.out.errors.push(format!(
+                            "lost anchor: body of `{}` is no longer the text its assumed spec was written for: `{}`", key, body
+                        ));
+                    }
+                }
                 if !c.spec.trim().is_empty() {
                     self.insert(bs, format!("\n{}\n", c.spec.trim_end()));
                 }
-                if !c.entry.trim().is_empty() && !external {
-                    self.insert(bs + 1, format!("\n{}\n", c.entry.trim_end()));
-                }
+                // (entry text is inserted in leave_fn, after the generated string-literal facts)
                 if !c.exit.trim().is_empty() && !external {
                     let tail = match b.stmts.last() {
                         Some(syn::Stmt::Expr(_, None)) => !matches!(sig.output, syn::ReturnType::Default),
@@ -398,6 +426,11 @@ impl<'p> Ctx<'p> {
                 self.out.log.push(format!("{}:{} R18 {} entry facts for {} string literals", short(&self.plan.file), self.line_of(bs), f.key, f.strlits.len()));
             }
         }
+        if let (Some(c), Some(bs)) = (&f.contract, f.body_start) {
+            if !c.entry.trim().is_empty() && !f.external {
+                self.insert(bs + 1, format!("\n{}\n", c.entry.trim_end()));
+            }
+        }
         if let Some(c) = &f.contract {
             for k in c.loops.keys() {
                 let n: usize = k.parse().unwrap_or(usize::MAX);
@@ -425,6 +458,12 @@ impl<'p> Ctx<'p> {
 
     fn loop_anchor(&mut self, body: &syn::Block) {
         let (bs, _) = br(body.span());
+        if let Some(t) = self.take_loop_text() {
+            self.insert(bs, format!("\n{}\n", t.trim_end()));
+        }
+    }
+
+    fn take_loop_text(&mut self) -> Option<String> {
         let mut text = None;
         if let Some(f) = self.fn_stack.last_mut() {
             let ord = f.loop_ord;
@@ -437,10 +476,24 @@ impl<'p> Ctx<'p> {
                 }
             }
         }
-        if let Some(t) = text {
-            self.insert(bs, format!("\n{}\n", t.trim_end()));
+        text
+    }
+}
+
+/// identifier-safe name of a word: ASCII alphanumerics kept, everything else as _uXXXX
+fn wname(w: &str) -> String {
+    let mut o = String::new();
+    for c in w.chars() {
+        if c.is_ascii_alphanumeric() {
+            o.push(c);
+        } else {
+            o.push_str(&format!("_u{:04x}", c as u32));
         }
     }
+    if o.is_empty() {
+        o.push_str("_empty");
+    }
+    o
 }
 
 fn short(p: &str) -> String {
@@ -504,6 +557,14 @@ fn pat_is_bytes(p: &syn::Pat) -> bool {
 
 fn bytes_lit_text(b: &syn::LitByteStr) -> String {
     let v = b.value();
+    if (1..=3).contains(&v.len()) {
+        // R4: `b"xy"` -> `&vx_bytes2(b'x', b'y')`: verified helper whose view is the spec sequence d2(x, y)
+        let items: Vec<String> = v
+            .iter()
+            .map(|c| if c.is_ascii_graphic() && *c != b'\'' && *c != b'\\' { format!("b'{}'", *c as char) } else { format!("{}u8", c) })
+            .collect();
+        return format!("&vx_bytes{}({})", v.len(), items.join(", "));
+    }
     let items: Vec<String> = v
         .iter()
         .map(|c| {
@@ -658,6 +719,54 @@ impl<'ast, 'p> Visit<'ast> for Ctx<'p> {
         let fnk = self.cur_fn();
         let rewrite = self.in_verified_fn()
             && self.plan.for_rewrite.iter().any(|k| k == "*" || *k == fnk);
+        // R1b: `for (J, &I) in X.iter().enumerate()` / `for (J, I) in X.iter().enumerate()`  ->  index loop
+        let mut enumerate_recv: Option<&syn::Expr> = None;
+        if let syn::Expr::MethodCall(en) = &*f.expr {
+            if en.method == "enumerate" && en.args.is_empty() {
+                if let syn::Expr::MethodCall(it) = &*en.receiver {
+                    if it.method == "iter" && it.args.is_empty() {
+                        enumerate_recv = Some(&it.receiver);
+                    }
+                }
+            }
+        }
+        if let (true, Some(recv), syn::Pat::Tuple(tp)) = (rewrite, enumerate_recv, &*f.pat) {
+            if tp.elems.len() == 2 {
+                let (s, e) = br(f.span());
+                let (rs, re) = br(recv.span());
+                let (bs, be) = br(f.body.span());
+                let (p0s, p0e) = br(tp.elems[0].span());
+                self.counter += 1;
+                let k = format!("vx_k{}", self.counter);
+                let second = match &tp.elems[1] {
+                    syn::Pat::Reference(r) => {
+                        let (is, ie) = br(r.pat.span());
+                        Some((self.text(is, ie).to_string(), false))
+                    }
+                    syn::Pat::Ident(pi) => Some((pi.ident.to_string(), true)),
+                    syn::Pat::Wild(_) => Some(("_".to_string(), true)),
+                    _ => None,
+                };
+                if let Some((name, by_ref)) = second {
+                    let inv = self.take_loop_text().map(|t| format!("\n{}\n", t.trim_end())).unwrap_or_default();
+                    let recv_txt = self.text(rs, re).to_string();
+                    self.replace(
+                        s,
+                        e,
+                        vec![
+                            Part::Lit(format!("{{ let mut {k}: usize = 0; while {k} < ({recv_txt}).len() {inv} {{ let ")),
+                            Part::Src(p0s, p0e),
+                            Part::Lit(format!(" = {k}; let {name} = {}({recv_txt})[{k}]; {k} += 1; ", if by_ref { "&" } else { "" })),
+                            Part::Src(bs, be),
+                            Part::Lit(" } }".into()),
+                        ],
+                    );
+                    self.log(s, "R1b", "for (j, x) in v.iter().enumerate() -> index loop");
+                    visit::visit_expr_for_loop(self, f);
+                    return;
+                }
+            }
+        }
         if rewrite {
             let (s, e) = br(f.span());
             let (ps, pe) = br(f.pat.span());
@@ -898,6 +1007,45 @@ impl<'ast, 'p> Visit<'ast> for Ctx<'p> {
                 }
             }
         }
+        // R19: str pattern methods with a literal pattern -> typed forwarding helpers (Pattern is generic)
+        if verified && m.args.len() == 1 {
+            let name = m.method.to_string();
+            if ["ends_with", "starts_with", "contains", "trim_end_matches", "trim_start_matches"].contains(&name.as_str()) {
+                let arg = &m.args[0];
+                let kind = match arg {
+                    syn::Expr::Lit(syn::ExprLit { lit: syn::Lit::Char(_), .. }) => Some("char"),
+                    syn::Expr::Lit(syn::ExprLit { lit: syn::Lit::Str(_), .. }) => Some("str"),
+                    syn::Expr::Array(a) if a.elems.iter().all(|e| matches!(e, syn::Expr::Lit(syn::ExprLit { lit: syn::Lit::Char(_), .. }))) => Some("chars"),
+                    _ => None,
+                };
+                if let Some(k) = kind {
+                    let (rs, re) = br(m.receiver.span());
+                    let (as_, ae) = br(arg.span());
+                    self.replace(
+                        s,
+                        e,
+                        vec![
+                            Part::Lit(format!("vx_{}_{}(", name, k)),
+                            Part::Src(rs, re),
+                            Part::Lit(if k == "chars" { ", &".into() } else { ", ".into() }),
+                            Part::Src(as_, ae),
+                            Part::Lit(")".into()),
+                        ],
+                    );
+                    self.log(s, "R19", &format!("str::{}(<{} literal>) -> vx_{}_{}", name, k, name, k));
+                }
+            }
+        }
+        // R20: `.parse()` (target f64 everywhere in this crate) -> vx_parse_f64
+        if verified && m.args.is_empty() && m.method == "parse" && m.turbofish.is_none() && self.plan.parse_f64 {
+            let (rs, re) = br(m.receiver.span());
+            self.replace(
+                s,
+                e,
+                vec![Part::Lit("vx_parse_f64((".into()), Part::Src(rs, re), Part::Lit(").vx_str())".into())],
+            );
+            self.log(s, "R20", "str::parse::<f64>() -> vx_parse_f64");
+        }
         // R12: call chains hoisted by text
         if verified {
             let fnk = self.cur_fn();
@@ -996,6 +1144,12 @@ impl<'ast, 'p> Visit<'ast> for Ctx<'p> {
                     if let Some(re) = recv_end {
                         self.used_hoists.insert(hi);
                         let body = format!("recv{}", self.text(re, e));
+                        if !h.pin.is_empty() && squash(&h.pin) != squash(self.text(re, e)) {
+                            self.out.errors.push(format!(
+                                "lost anchor: the closure chain hoisted into {} (in {}) is no longer the text its assumed spec was written for: `{}`",
+                                h.name, fnk, squash(self.text(re, e))
+                            ));
+                        }
                         self.helpers.push(format!(
                             "// hoisted from {} (R7); body is the verbatim expression\n#[verifier::external_body]\nfn {}{}{}\n{}\n{{ {} }}\n",
                             fnk, h.name, h.generics, h.sig, h.spec, body
@@ -1056,11 +1210,19 @@ impl<'ast, 'p> Visit<'ast> for Ctx<'p> {
             let txt = squash(self.text(s, e));
             let hit = self.plan.expr_hoists.iter().find(|h| h.in_fn == fnk && squash(&h.text) == txt).cloned();
             if let Some(h) = hit {
-                self.helpers.push(format!(
-                    "// hoisted from {} (R12); body is the verbatim expression\n#[verifier::external_body]\nfn {}{}{}\n{}\n{{ {} }}\n",
-                    fnk, h.name, h.generics, h.sig, h.spec, self.text(s, e)
-                ));
-                self.replace(s, e, vec![Part::Lit(format!("{}({})", h.name, h.args))]);
+                if h.method_of.is_empty() {
+                    self.helpers.push(format!(
+                        "// hoisted from {} (R12); body is the verbatim expression\n#[verifier::external_body]\nfn {}{}{}\n{}\n{{ {} }}\n",
+                        fnk, h.name, h.generics, h.sig, h.spec, self.text(s, e)
+                    ));
+                    self.replace(s, e, vec![Part::Lit(format!("{}({})", h.name, h.args))]);
+                } else {
+                    self.helpers.push(format!(
+                        "// hoisted from {} (R12); body is the verbatim expression\nimpl {} {{\n#[verifier::external_body]\nfn {}{}{}\n{}\n{{ {} }}\n}}\n",
+                        fnk, h.method_of, h.name, h.generics, h.sig, h.spec, self.text(s, e)
+                    ));
+                    self.replace(s, e, vec![Part::Lit(format!("self.{}({})", h.name, h.args))]);
+                }
                 self.log(s, "R12", &format!("expression hoisted into {}", h.name));
                 self.used_expr_hoists.insert(h.name.clone());
                 return;
@@ -1385,6 +1547,100 @@ fn main() {
         if let Some(stub) = plan.item_stubs.get(&key) {
             cx.out.log.push(format!("{}:{} R9 item `{}` replaced by generated stub", short(&plan.file), cx.line_of(s), key));
             rendered.push_str(&format!("// @item {} ({}:{})\n{}\n\n", key, short(&plan.file), cx.line_of(s), stub));
+            continue;
+        }
+        if let (Some(prefix), syn::Item::Static(st)) = (plan.phf_stub.get(&key), item) {
+            // R9: collect the string literals of the phf_set! invocation
+            fn lits(ts: proc_macro2::TokenStream, out: &mut Vec<String>) {
+                for t in ts {
+                    match t {
+                        proc_macro2::TokenTree::Group(g) => lits(g.stream(), out),
+                        proc_macro2::TokenTree::Literal(l) => {
+                            if let Ok(syn::Lit::Str(s)) = syn::parse_str::<syn::Lit>(&l.to_string()) {
+                                out.push(s.value());
+                            }
+                        }
+                        _ => {}
+                    }
+                }
+            }
+            let mut words = Vec::new();
+            if let syn::Expr::Macro(m) = &*st.expr {
+                lits(m.mac.tokens.clone(), &mut words);
+            }
+            let mut t = format!("// R9: stub generated from the {} words of the phf_set! invocation at {}:{}\n", words.len(), short(&plan.file), cx.line_of(s));
+            t.push_str(&format!("pub open spec fn {}_insignificant(w: Seq<char>) -> bool {{\n    false", prefix));
+            for w in &words {
+                t.push_str(&format!("\n    || w == {:?}@", w));
+            }
+            t.push_str("\n}\n");
+            t.push_str(&format!("pub struct VxWordSet_{p};\nimpl VxWordSet_{p} {{\n    #[verifier::external_body]\n    pub fn contains(&self, w: &str) -> (r: bool) ensures r == {p}_insignificant(w@) {{ unimplemented!() }}\n}}\npub const {name}: VxWordSet_{p} = VxWordSet_{p};\n", p = prefix, name = st.ident));
+            cx.out.log.push(format!("{}:{} R9 phf_set! `{}` ({} words) replaced by generated word-set stub", short(&plan.file), cx.line_of(s), st.ident, words.len()));
+            rendered.push_str(&format!("// @item {} ({}:{})\n{}\n", key, short(&plan.file), cx.line_of(s), t));
+            continue;
+        }
+        if let (true, syn::Item::Macro(mm)) = (plan.bitflags_stub && key == "bitflags!", item) {
+            // R9: `struct NAME: u64 { const A = 1; ... }`
+            let toks: Vec<proc_macro2::TokenTree> = mm.mac.tokens.clone().into_iter().collect();
+            let mut name = String::new();
+            let mut consts: Vec<(String, String)> = Vec::new();
+            let mut i = 0;
+            while i < toks.len() {
+                if let proc_macro2::TokenTree::Ident(id) = &toks[i] {
+                    if id == "struct" {
+                        if let Some(proc_macro2::TokenTree::Ident(n)) = toks.get(i + 1) {
+                            name = n.to_string();
+                        }
+                    }
+                }
+                if let proc_macro2::TokenTree::Group(g) = &toks[i] {
+                    if g.delimiter() == proc_macro2::Delimiter::Brace {
+                        let inner: Vec<proc_macro2::TokenTree> = g.stream().into_iter().collect();
+                        let mut j = 0;
+                        while j < inner.len() {
+                            if let proc_macro2::TokenTree::Ident(id) = &inner[j] {
+                                if id == "const" {
+                                    if let Some(proc_macro2::TokenTree::Ident(cn)) = inner.get(j + 1) {
+                                        // value expression: tokens after `=` up to `;`
+                                        let mut k = j + 3;
+                                        let mut v = String::new();
+                                        while k < inner.len() {
+                                            if let proc_macro2::TokenTree::Punct(p) = &inner[k] {
+                                                if p.as_char() == ';' {
+                                                    break;
+                                                }
+                                            }
+                                            v.push_str(&inner[k].to_string());
+                                            v.push(' ');
+                                            k += 1;
+                                        }
+                                        consts.push((cn.to_string(), format!("({})", v.trim())));
+                                    }
+                                }
+                            }
+                            j += 1;
+                        }
+                    }
+                }
+                i += 1;
+            }
+            if name.is_empty() || consts.is_empty() {
+                cx.out.errors.push(format!("unsupported construct: bitflags! at line {} not understood", cx.line_of(s)));
+                continue;
+            }
+            let all: Vec<String> = consts.iter().map(|(_, v)| format!("({} as u64)", v)).collect();
+            let mask = all.join(" | ");
+            let mut t = format!("// R9: stub generated from the bitflags! invocation at {}:{} (constants read from its tokens)\n#[derive(Clone, Copy)]\npub struct {name} {{ pub bits: u64 }}\nimpl {name} {{\n", short(&plan.file), cx.line_of(s));
+            for (c, v) in &consts {
+                t.push_str(&format!("    pub const {c}: {name} = {name} {{ bits: {v} }};\n"));
+            }
+            t.push_str(&format!("    pub open spec fn all_bits() -> u64 {{ {mask} }}\n"));
+            t.push_str(&format!("    pub fn from_bits_truncate(b: u64) -> (r: {name}) ensures r.bits == b & {name}::all_bits() {{ {name} {{ bits: b & ({mask}) }} }}\n"));
+            t.push_str(&format!("    pub fn empty() -> (r: {name}) ensures r.bits == 0 {{ {name} {{ bits: 0 }} }}\n"));
+            t.push_str(&format!("    pub fn contains(&self, o: {name}) -> (r: bool) ensures r == (self.bits & o.bits == o.bits) {{ self.bits & o.bits == o.bits }}\n"));
+            t.push_str("    pub fn bits(&self) -> (r: u64) ensures r == self.bits { self.bits }\n}\n");
+            cx.out.log.push(format!("{}:{} R9 bitflags! `{}` ({} constants) replaced by generated struct", short(&plan.file), cx.line_of(s), name, consts.len()));
+            rendered.push_str(&format!("// @item {} ({}:{})\n{}\n", key, short(&plan.file), cx.line_of(s), t));
             continue;
         }
         let two_pass = plan.inherent_copy.iter().any(|k| *k == key);
